@@ -54,6 +54,7 @@ All of these, and every field below again, are additionally SAMPLED on the real 
 harness/ops/C19.py (every result of every public operation re-validated).
 -/
 import AutomataVerif.Props.C19
+import AutomataVerif.Props.C19c
 import AutomataVerif.Props.C04
 import AutomataVerif.Props.C05
 import AutomataVerif.Props.C07
